@@ -50,6 +50,9 @@ type SessionOpts struct {
 	// (e.g. jabber:component:accept, the namespace of external components)
 	// instead of jabber:client / jabber:server.  Not combined with Negotiated.
 	ContentNS string
+	// TeeIn / TeeOut: the XML console of a Negotiated session
+	// (StreamConfig.TeeIn / TeeOut)
+	TeeIn, TeeOut io.Writer
 }
 
 // Header returns the stream header the harness feeds as the peer for opts.
@@ -142,7 +145,7 @@ func readyDouble() xmpp.StreamFeature {
 
 func negotiatedSession(rw io.ReadWriter, o SessionOpts) (*xmpp.Session, error) {
 	cfg := func(*xmpp.Session, *xmpp.StreamConfig) xmpp.StreamConfig {
-		return xmpp.StreamConfig{Features: []xmpp.StreamFeature{readyDouble()}}
+		return xmpp.StreamConfig{Features: []xmpp.StreamFeature{readyDouble()}, TeeIn: o.TeeIn, TeeOut: o.TeeOut}
 	}
 	neg := xmpp.NewNegotiator(cfg)
 	if o.WS {
